@@ -566,6 +566,20 @@ class Interp:
             if isinstance(base, Sym):
                 if (base.tag, e.attr) in self.heap:
                     return self.heap[(base.tag, e.attr)]   # attribute of a symbolic object, whatever name it is reached through
+                if base.tag == "self" and isinstance(e.ctx, ast.Load) and self.cls is not None and depth < self.max_depth:
+                    pm_ = self.prog.lookup_method(self.cls, e.attr)
+                    if pm_ is not None and isinstance(pm_.node, ast.FunctionDef) and len(pm_.params) == 1 and pm_ not in self.fn_stack[-3:]:
+                        from .frontend import decorators as _decos3
+                        if any(d_.split(".")[-1] in ("property", "cached_property") for d_ in _decos3(pm_.node)):
+                            cenv_ = {"self": base}
+                            for k_, v_ in env.items():
+                                if k_.startswith("self."):
+                                    cenv_[k_] = v_
+                            self.fn_stack.append(pm_)
+                            try:
+                                return self.call_body(pm_, cenv_, depth + 1)       # a property: reading it runs its getter
+                            finally:
+                                self.fn_stack.pop()
                 if base.tag in ("self", "cls") and isinstance(e.ctx, ast.Load) and self.cls is not None:
                     cv = self._class_const(self.cls, e.attr, depth)    # a class-level constant read through the instance
                     if cv is not None:
